@@ -339,20 +339,26 @@ int __wrap_munmap(void* addr, size_t len) {
 	// result field: 0 = matches a live mapping with the same length, -1 unknown address, -2 length mismatch
 	int verdict = k == 2 ? (mappedLen == len ? 0 : -2) : -1;
 	logEvent(K_MUNMAP, (uintptr_t)addr, len, (int)mappedLen, 0, verdict, false);
-	int rc;
+	int rc = 0;
+	const bool wasGuardBlock = g_guards && guardFree(addr, nullptr);
 	bool guardedCode = false;
 	{
+		// The range must be PROT_NONE *before* the entry becomes recyclable (live = 2): another thread's mmap may pick it up
+		// the moment the lock is released, and a late madvise / mprotect would then zap that thread's live code buffer.
 		Lock l(g_mapLock);
 		MapEnt* e = mapFind((uintptr_t)addr);
-		if (e && e->addr == (uintptr_t)addr) { guardedCode = e->guarded; e->live = guardedCode ? 2 : 0; }
+		if (e && e->addr == (uintptr_t)addr) {
+			guardedCode = e->guarded && !wasGuardBlock;
+			if (guardedCode) {
+				// keep the range reserved as PROT_NONE so that stale accesses fault and are classified
+				madvise(addr, mappedLen ? mappedLen : len, MADV_DONTNEED);
+				rc = __real_mprotect(addr, mappedLen ? mappedLen : len, PROT_NONE);
+				e->live = 2;
+			} else e->live = 0;
+		}
 	}
-	if (g_guards && guardFree(addr, nullptr)) rc = 0;
-	else if (guardedCode) {
-		// keep the range reserved as PROT_NONE so that stale accesses fault and are classified
-		madvise(addr, mappedLen ? mappedLen : len, MADV_DONTNEED);
-		rc = __real_mprotect(addr, mappedLen ? mappedLen : len, PROT_NONE);
-	}
-	else rc = __real_munmap(addr, len);
+	if (wasGuardBlock) rc = 0;
+	else if (!guardedCode) rc = __real_munmap(addr, len);
 	tl_busy = false;
 	return rc;
 }
